@@ -199,6 +199,20 @@ func main() {
 	switch os.Args[1] {
 	case "teardown":
 		runChildren("teardown-child", *cases, *outp, *workers, nil, *maxBad)
+	case "stress":
+		// cases: one seed each
+		f, err := os.Create(*outp + ".cases")
+		if err != nil {
+			fmt.Fprintln(os.Stderr, "HARNESS: "+err.Error())
+			os.Exit(4)
+		}
+		for i := 0; i < *runs; i++ {
+			fmt.Fprintf(f, "{\"id\":\"st%d.%d\",\"seed\":%d}\n", *seed, i, *seed*1000003+int64(i))
+		}
+		f.Close()
+		runChildren("stress-child", *outp+".cases", *outp, *workers, nil, *maxBad)
+	case "stress-child":
+		cmdStressChild(*cases, *from, *to)
 	case "deliver":
 		cmdDeliver(*seed, *runs, *outp, *feat, *cfgs)
 	case "frames":
